@@ -94,6 +94,13 @@ func (lc *linCtx) of(v ssa.Value, depth int) (lin, bool) {
 		if okx && x == (lin{1, 0, 0}) && isConstInt(bo.Y, -8) {
 			return lin{0, 1, 0}, true
 		}
+		if okx && x == (lin{1, 0, 0}) && isConstInt(bo.Y, 7) {
+			return lin{1, -1, 0}, true // n & 7 = n − n&^7
+		}
+	case token.REM:
+		if okx && x == (lin{1, 0, 0}) && isConstInt(bo.Y, 8) {
+			return lin{1, -1, 0}, true // n ≥ 0, so n % 8 = n − n&^7
+		}
 	case token.ADD:
 		if okx && oky {
 			return x.add(y), true
@@ -121,6 +128,127 @@ func runC20(c *Ctx) {
 	c.rule("R-CMP-RANGE", 2, "every return of CompareNatural is a cmp.Compare result or a constant in {-1,0,1}")
 
 	// ---- R-UNSAFE-BOUNDS
+	judgeAccess := func(key string, pos token.Pos, dataV, idxV ssa.Value, at *ssa.BasicBlock, width int64) {
+		lc := &linCtx{data: dataV}
+		if _, isParam := dataV.(*ssa.Parameter); !isParam {
+			c.undecided("R-UNSAFE-BOUNDS", key, pos, "the accessed slice is not the function's parameter")
+			return
+		}
+		// index = phi + c0
+		idx := idxV
+		off := int64(0)
+		if bo, ok := idx.(*ssa.BinOp); ok && (bo.Op == token.ADD || bo.Op == token.SUB) {
+			if k, ok := constInt(bo.Y); ok {
+				if bo.Op == token.SUB {
+					k = -k
+				}
+				idx, off = bo.X, k
+			}
+		}
+		ph, ok := idx.(*ssa.Phi)
+		if !ok {
+			// loop-free direct form
+			if f, ok := lc.of(idxV, 0); ok {
+				lo := f.nonneg()
+				hi := (lin{1, 0, -width}).sub(f).nonneg()
+				c.judge(lo && hi, "R-UNSAFE-BOUNDS", key, pos, "index "+f.String()+" within [0, n-"+fmt.Sprint(width)+"]", "index "+f.String()+" is not provably within [0, n-"+fmt.Sprint(width)+"]")
+				return
+			}
+			c.undecided("R-UNSAFE-BOUNDS", key, pos, "index is neither an induction variable nor a linear form: "+sym(idxV))
+			return
+		}
+		// induction variable: init, step
+		var init lin
+		var step int64
+		haveInit, haveStep := false, false
+		for i, e := range ph.Edges {
+			if ph.Block().Dominates(ph.Block().Preds[i]) {
+				f, ok := affOf(e, ph, nil, 0)
+				if !ok || f.a != 1 || f.d != 1 || (haveStep && f.b != step) {
+					c.undecided("R-UNSAFE-BOUNDS", key, pos, "induction step not of the form i ± const")
+					return
+				}
+				step, haveStep = f.b, true
+			} else {
+				f, ok := lc.of(e, 0)
+				if !ok {
+					c.undecided("R-UNSAFE-BOUNDS", key, pos, "initial value of the induction variable is not linear in n, n&^7: "+sym(e))
+					return
+				}
+				init, haveInit = f, true
+			}
+		}
+		if !haveInit || !haveStep || step == 0 {
+			c.undecided("R-UNSAFE-BOUNDS", key, pos, "induction variable not recognised")
+			return
+		}
+		// congruence of i (mod 8) if step ≡ 0 mod 8
+		var res int64
+		haveRes := false
+		if step%8 == 0 {
+			if r, ok := init.mod8(); ok {
+				res, haveRes = r, true
+			}
+		}
+		// guards on phi at the site
+		var lowers, uppers []lin // i >= L ; i <= U
+		if step > 0 {
+			lowers = append(lowers, init)
+		} else {
+			uppers = append(uppers, init)
+		}
+		for _, cm := range cmpsAt(at) {
+			x, y, op := cm.X, cm.Y, cm.Op
+			if y == ssa.Value(ph) {
+				x, y, op = y, x, flipOp(op)
+			}
+			if x != ssa.Value(ph) {
+				continue
+			}
+			g, ok := lc.of(y, 0)
+			if !ok {
+				continue
+			}
+			switch op {
+			case token.LSS:
+				u := lin{g.a, g.b, g.c - 1}
+				if gr, ok := g.mod8(); ok && haveRes && gr == res {
+					u = lin{g.a, g.b, g.c - 8} // same residue: strictly less means at least 8 less
+				}
+				uppers = append(uppers, u)
+			case token.LEQ:
+				uppers = append(uppers, g)
+			case token.GEQ:
+				lowers = append(lowers, g)
+			case token.GTR:
+				lowers = append(lowers, lin{g.a, g.b, g.c + 1})
+			}
+		}
+		loOK, hiOK := false, false
+		for _, l := range lowers {
+			if (lin{l.a, l.b, l.c + off}).nonneg() {
+				loOK = true
+			}
+		}
+		for _, u := range uppers {
+			// n - (u + off + width) >= 0
+			if (lin{1, 0, 0}).sub(lin{u.a, u.b, u.c + off + width}).nonneg() {
+				hiOK = true
+			}
+		}
+		msg := fmt.Sprintf("i: init %s step %+d", init, step)
+		if haveRes {
+			msg += fmt.Sprintf(" (i ≡ %d mod 8)", res)
+		}
+		switch {
+		case loOK && hiOK:
+			c.ok("R-UNSAFE-BOUNDS", key, pos, msg+"; 0 ≤ i and i+"+fmt.Sprint(width)+" ≤ n proved")
+		case !hiOK:
+			c.bad("R-UNSAFE-BOUNDS", key, pos, msg+fmt.Sprintf("; cannot prove i%+d+%d ≤ len(data): the %d-byte access may read or write past the end of the slice (upper bounds known: %v)", off, width, width, uppers))
+		default:
+			c.bad("R-UNSAFE-BOUNDS", key, pos, msg+fmt.Sprintf("; cannot prove 0 ≤ i%+d: the access may start before the slice (lower bounds known: %v)", off, lowers))
+		}
+	}
 	nSites := 0
 	for _, fn := range P.PkgFuncs("mbits") {
 		name := fnName(fn)
@@ -159,125 +287,45 @@ func runC20(c *Ctx) {
 				c.undecided("R-UNSAFE-BOUNDS", key, cv.Pos(), "width of the unsafe access not recognised")
 				return
 			}
-			lc := &linCtx{data: ia.X}
-			if _, isParam := ia.X.(*ssa.Parameter); !isParam {
-				c.undecided("R-UNSAFE-BOUNDS", key, cv.Pos(), "the accessed slice is not the function's parameter")
-				return
-			}
-			// index = phi + c0
-			idx := ia.Index
-			off := int64(0)
-			if bo, ok := idx.(*ssa.BinOp); ok && (bo.Op == token.ADD || bo.Op == token.SUB) {
-				if k, ok := constInt(bo.Y); ok {
-					if bo.Op == token.SUB {
-						k = -k
+			// the access may sit in a helper that receives the slice and the index: judge it at every call site
+			if dp, ok := ia.X.(*ssa.Parameter); ok {
+				if ip, ok := ia.Index.(*ssa.Parameter); ok && fn.Object() != nil && !fn.Object().Exported() {
+					di, ii := -1, -1
+					for k, p := range fn.Params {
+						if p == dp {
+							di = k
+						}
+						if p == ip {
+							ii = k
+						}
 					}
-					idx, off = bo.X, k
-				}
-			}
-			ph, ok := idx.(*ssa.Phi)
-			if !ok {
-				// loop-free direct form
-				if f, ok := lc.of(ia.Index, 0); ok {
-					lo := f.nonneg()
-					hi := (lin{1, 0, -width}).sub(f).nonneg()
-					c.judge(lo && hi, "R-UNSAFE-BOUNDS", key, cv.Pos(), "index "+f.String()+" within [0, n-"+fmt.Sprint(width)+"]", "index "+f.String()+" is not provably within [0, n-"+fmt.Sprint(width)+"]")
+					sites := 0
+					escaped := false
+					for _, caller := range P.PkgFuncs("mbits") {
+						allInstrs(caller, func(in2 ssa.Instruction) {
+							for _, op := range in2.Operands(nil) {
+								if *op == ssa.Value(fn) {
+									if call, ok := in2.(*ssa.Call); !ok || call.Call.Value != ssa.Value(fn) {
+										escaped = true
+									}
+								}
+							}
+							call, ok := in2.(*ssa.Call)
+							if !ok || origin(staticCallee(&call.Call)) != origin(fn) || P.isCanaryFn(caller) != P.isCanaryFn(fn) {
+								return
+							}
+							sites++
+							c.sawFn(fnName(caller))
+							judgeAccess(fmt.Sprintf("%s:word access via %s", fnName(caller), fn.Name()), call.Pos(), call.Call.Args[di], call.Call.Args[ii], call.Block(), width)
+						})
+					}
+					if escaped || sites == 0 {
+						c.undecided("R-UNSAFE-BOUNDS", key, cv.Pos(), "the helper performing the unsafe access escapes or has no call site: its index cannot be judged")
+					}
 					return
 				}
-				c.undecided("R-UNSAFE-BOUNDS", key, cv.Pos(), "index is neither an induction variable nor a linear form: "+sym(ia.Index))
-				return
 			}
-			// induction variable: init, step
-			var init lin
-			var step int64
-			haveInit, haveStep := false, false
-			for i, e := range ph.Edges {
-				if ph.Block().Dominates(ph.Block().Preds[i]) {
-					f, ok := affOf(e, ph, nil, 0)
-					if !ok || f.a != 1 || f.d != 1 || (haveStep && f.b != step) {
-						c.undecided("R-UNSAFE-BOUNDS", key, cv.Pos(), "induction step not of the form i ± const")
-						return
-					}
-					step, haveStep = f.b, true
-				} else {
-					f, ok := lc.of(e, 0)
-					if !ok {
-						c.undecided("R-UNSAFE-BOUNDS", key, cv.Pos(), "initial value of the induction variable is not linear in n, n&^7: "+sym(e))
-						return
-					}
-					init, haveInit = f, true
-				}
-			}
-			if !haveInit || !haveStep || step == 0 {
-				c.undecided("R-UNSAFE-BOUNDS", key, cv.Pos(), "induction variable not recognised")
-				return
-			}
-			// congruence of i (mod 8) if step ≡ 0 mod 8
-			var res int64
-			haveRes := false
-			if step%8 == 0 {
-				if r, ok := init.mod8(); ok {
-					res, haveRes = r, true
-				}
-			}
-			// guards on phi at the site
-			var lowers, uppers []lin // i >= L ; i <= U
-			if step > 0 {
-				lowers = append(lowers, init)
-			} else {
-				uppers = append(uppers, init)
-			}
-			for _, cm := range cmpsAt(cv.Block()) {
-				x, y, op := cm.X, cm.Y, cm.Op
-				if y == ssa.Value(ph) {
-					x, y, op = y, x, flipOp(op)
-				}
-				if x != ssa.Value(ph) {
-					continue
-				}
-				g, ok := lc.of(y, 0)
-				if !ok {
-					continue
-				}
-				switch op {
-				case token.LSS:
-					u := lin{g.a, g.b, g.c - 1}
-					if gr, ok := g.mod8(); ok && haveRes && gr == res {
-						u = lin{g.a, g.b, g.c - 8} // same residue: strictly less means at least 8 less
-					}
-					uppers = append(uppers, u)
-				case token.LEQ:
-					uppers = append(uppers, g)
-				case token.GEQ:
-					lowers = append(lowers, g)
-				case token.GTR:
-					lowers = append(lowers, lin{g.a, g.b, g.c + 1})
-				}
-			}
-			loOK, hiOK := false, false
-			for _, l := range lowers {
-				if (lin{l.a, l.b, l.c + off}).nonneg() {
-					loOK = true
-				}
-			}
-			for _, u := range uppers {
-				// n - (u + off + width) >= 0
-				if (lin{1, 0, 0}).sub(lin{u.a, u.b, u.c + off + width}).nonneg() {
-					hiOK = true
-				}
-			}
-			msg := fmt.Sprintf("i: init %s step %+d", init, step)
-			if haveRes {
-				msg += fmt.Sprintf(" (i ≡ %d mod 8)", res)
-			}
-			switch {
-			case loOK && hiOK:
-				c.ok("R-UNSAFE-BOUNDS", key, cv.Pos(), msg+"; 0 ≤ i and i+"+fmt.Sprint(width)+" ≤ n proved")
-			case !hiOK:
-				c.bad("R-UNSAFE-BOUNDS", key, cv.Pos(), msg+fmt.Sprintf("; cannot prove i%+d+%d ≤ len(data): the %d-byte access may read or write past the end of the slice (upper bounds known: %v)", off, width, width, uppers))
-			default:
-				c.bad("R-UNSAFE-BOUNDS", key, cv.Pos(), msg+fmt.Sprintf("; cannot prove 0 ≤ i%+d: the access may start before the slice (lower bounds known: %v)", off, lowers))
-			}
+			judgeAccess(key, cv.Pos(), ia.X, ia.Index, cv.Block(), width)
 		})
 	}
 	c.Extra["unsafe_word_access_sites"] = nSites // zero would mean Go's own bounds checks cover everything; the canary keeps the matcher honest
